@@ -20,9 +20,11 @@ import (
 	"context"
 	"fmt"
 	"math/rand"
+	"os"
 	"strconv"
 	"strings"
 
+	"github.com/hydraide/hydraide/app/core/settings"
 	"github.com/hydraide/hydraide/app/name"
 	hydrapb "github.com/hydraide/hydraide/sdk/go/hydraidego/v3/hydraidepbgo"
 	"google.golang.org/grpc/metadata"
@@ -52,35 +54,37 @@ func c07IndexType(s string) (hydrapb.IndexType_Type, bool) {
 // the produced values is the order of the ranks (floats: rank/2, strings: fixed width).
 func c07Value(kv *hydrapb.KeyValuePair, typ string, v int64) bool {
 	switch typ {
+	// (+1 everywhere: a zero-like typed value would come back as void after a reload, which is
+	// C05's subject, not this one's)
 	case "i8":
-		x := int32(int8(v))
+		x := int32(int8(v*3 + 1))
 		kv.Int8Val = &x
 	case "i16":
-		x := int32(int16(v * 100))
+		x := int32(int16(v*100 + 1))
 		kv.Int16Val = &x
 	case "i32":
-		x := int32(v * 100000)
+		x := int32(v*100000 + 1)
 		kv.Int32Val = &x
 	case "i64":
-		x := v * 10000000000
+		x := v*c07I64Step + 1
 		kv.Int64Val = &x
 	case "u8":
-		x := uint32(uint8(v))
+		x := uint32(uint8(v*3 + 1))
 		kv.Uint8Val = &x
 	case "u16":
-		x := uint32(uint16(v * 1000))
+		x := uint32(uint16(v*1000 + 1))
 		kv.Uint16Val = &x
 	case "u32":
-		x := uint32(v * 100000000)
+		x := uint32(v*100000000 + 1)
 		kv.Uint32Val = &x
 	case "u64":
-		x := uint64(v) * 1000000000000
+		x := uint64(v)*1000000000000 + 1
 		kv.Uint64Val = &x
 	case "f32":
-		x := float32(v) / 2
+		x := float32(v)/2 + 0.25
 		kv.Float32Val = &x
 	case "f64":
-		x := float64(v) / 2
+		x := float64(v)/2 + 0.25
 		kv.Float64Val = &x
 	case "str":
 		x := fmt.Sprintf("s%03d", v+500)
@@ -99,6 +103,8 @@ func c07Value(kv *hydrapb.KeyValuePair, typ string, v int64) bool {
 	}
 	return true
 }
+
+const c07I64Step = 10000000000
 
 func c07Unsigned(t string) bool { return strings.HasPrefix(t, "u") }
 
@@ -169,8 +175,15 @@ func c07Gen(rng *rand.Rand, tier string, w *bufio.Writer) {
 
 	// 9: sub-second parts decide: records at 3s, 3s+1ns, 3s+999999999ns, 4s; windows on those instants
 	fmt.Fprintln(w, "case 9\nset k1 i64 1 3000000000 0 0\nset k2 i64 2 3000000001 0 0\nset k3 i64 3 3999999999 0 0\nset k4 i64 4 4000000000 0 0\nset k5 i64 5 3000000000 0 0\nq created asc 0 0 3000000001 4000000000 u\nq created desc 0 0 3000000000 3999999999 u\nq created asc 0 0 3000000000 3000000001 s\nq created desc 0 0 3999999999 - u\nq created asc 0 0 - 3000000001 u")
-	for c := 10; c < cases; c++ {
-		fmt.Fprintf(w, "case %d\n", c)
+	// 10: Increment moves an int64 value and the expiry inside built indexes; a reload drops them
+	fmt.Fprintln(w, "case 10p\nset k1 i64 1 1000000000 0 0\nset k2 i64 2 2000000000 0 3000000000\nq i64 asc 0 0 - - u\nq expire asc 0 0 - - u\ninc k1 3 5000000000\ninc k3 1 0\nq i64 asc 0 0 - - u\nq expire desc 0 0 - - u\nreload\nq i64 desc 0 0 - - u\nq created asc 0 0 - - u\nset k1 i64 0 9000000000 0 0\nq created asc 0 0 - - u\nq expire asc 0 0 - - u")
+	for c := 11; c < cases; c++ {
+		persistent := c%3 == 0
+		if persistent {
+			fmt.Fprintf(w, "case %dp\n", c)
+		} else {
+			fmt.Fprintf(w, "case %d\n", c)
+		}
 		theme := rng.Intn(10)
 		// type palette of the case
 		var types []string
@@ -181,6 +194,14 @@ func c07Gen(rng *rand.Rand, tier string, w *bufio.Writer) {
 			types = []string{"i64"}
 		default: // mixed
 			types = []string{c07Types[rng.Intn(len(c07Types))], c07Types[rng.Intn(len(c07Types))], "i64"}
+		}
+		if persistent {
+			// bool false / void are zero-like on disk (C05): keep them out of cases that reload
+			for i, t := range types {
+				if t == "bool" || t == "void" {
+					types[i] = "i64"
+				}
+			}
 		}
 		nKeys := 3 + rng.Intn(8)
 		pAbsent := []int{0, 15, 50}[rng.Intn(3)]
@@ -196,6 +217,7 @@ func c07Gen(rng *rand.Rand, tier string, w *bufio.Writer) {
 		n := 6 + rng.Intn(maxLen)
 		pUpdateMeta := rng.Intn(3) // 0: updates carry no time fields; else they do
 		live := map[string]bool{}
+		incSum := map[string]int{} // keys created by Increment → sum of their increments
 		for i := 0; i < n; i++ {
 			r := rng.Intn(100)
 			switch {
@@ -207,11 +229,30 @@ func c07Gen(rng *rand.Rand, tier string, w *bufio.Writer) {
 					cT, uT, eT = 0, 0, 0
 				}
 				live[k] = true
+				delete(incSum, k)
 				fmt.Fprintf(w, "set %s %s %d %d %d %d\n", k, typ, c07Rank(rng, typ), cT, uT, eT)
 			case r < 55:
 				k := fmt.Sprintf("k%02d", rng.Intn(nKeys))
 				delete(live, k)
+				delete(incSum, k)
 				fmt.Fprintf(w, "del %s\n", k)
+			case r < 60:
+				// IncrementInt64 (creates the key, increments int64 content in place, fails on other types)
+				k := fmt.Sprintf("k%02d", rng.Intn(nKeys))
+				d := rng.Intn(5) - 2 // 0 now and then: the gateway refuses it
+				if _, byInc := incSum[k]; byInc || !live[k] {
+					// a key made by Increment holds a multiple of the step: keep it off 0 (zero-like on disk, C05)
+					if incSum[k]+d == 0 && d != 0 {
+						d++
+					}
+					if d != 0 {
+						incSum[k] += d
+						live[k] = true
+					}
+				}
+				fmt.Fprintf(w, "inc %s %d %d\n", k, d, c07TS(rng, 60))
+			case r < 62 && persistent:
+				fmt.Fprintln(w, "reload")
 			default:
 				idx := focus[rng.Intn(len(focus))]
 				if rng.Intn(12) == 0 {
@@ -266,12 +307,19 @@ func c07OptTS(s string) (*timestamppb.Timestamp, bool) {
 }
 
 func c07Run(in *bufio.Scanner, w *bufio.Writer) {
+	// the persistent storage path prints diagnostics with fmt.Println; `w` already holds the real
+	// stdout, so everything else that writes to os.Stdout goes to the bin
+	if null, err := os.OpenFile(os.DevNull, os.O_WRONLY, 0); err == nil {
+		os.Stdout = null
+	}
 	rig, err := NewRig(3, 2000, 3600, 0)
 	if err != nil {
 		panic(err)
 	}
 	defer rig.Stop(true)
 	rig.Settings.RegisterPattern(name.New().Sanctuary("c07").Realm("*").Swamp("*"), true, 3600, nil)
+	rig.Settings.RegisterPattern(name.New().Sanctuary("c07p").Realm("*").Swamp("*"), false, 3600,
+		&settings.FileSystemSettings{WriteIntervalSec: 1, MaxFileSizeByte: 8192})
 	ctx := context.Background()
 	swampName := ""
 	for in.Scan() {
@@ -285,8 +333,39 @@ func c07Run(in *bufio.Scanner, w *bufio.Writer) {
 			}()
 			switch {
 			case f[0] == "case" && len(f) == 2:
-				swampName = name.New().Sanctuary("c07").Realm("idx").Swamp("case" + f[1]).Get()
+				if strings.HasSuffix(f[1], "p") { // a swamp on disk, so that it can be closed and loaded again
+					swampName = name.New().Sanctuary("c07p").Realm("idx").Swamp("case" + f[1]).Get()
+				} else {
+					swampName = name.New().Sanctuary("c07").Realm("idx").Swamp("case" + f[1]).Get()
+				}
 				return line
+			case f[0] == "inc" && len(f) == 4:
+				dl, e1 := strconv.ParseInt(f[2], 10, 64)
+				eT, e2 := strconv.ParseInt(f[3], 10, 64)
+				if e1 != nil || e2 != nil {
+					return "bad-op"
+				}
+				var meta *hydrapb.IncrementRequestMetadata
+				if eT != 0 {
+					meta = &hydrapb.IncrementRequestMetadata{ExpiredAt: c07TSpb(eT)}
+				}
+				resp, err := rig.GW.IncrementInt64(ctx, &hydrapb.IncrementInt64Request{IslandID: 1, SwampName: swampName, Key: f[1],
+					IncrementBy: dl * c07I64Step, SetIfNotExist: meta, SetIfExist: meta})
+				if err == nil && resp == nil {
+					return "nilnil"
+				}
+				return "ok" // a content type other than int64 is an error and changes nothing
+			case f[0] == "reload" && len(f) == 1:
+				nm := name.Load(swampName)
+				if ok, err := rig.Zeus.GetHydra().IsExistSwamp(1, nm); err != nil || !ok {
+					return "ok"
+				}
+				sw, err := rig.Zeus.GetHydra().SummonSwamp(ctx, 1, nm)
+				if err != nil {
+					return "err"
+				}
+				sw.Close()
+				return "ok"
 			case f[0] == "set" && len(f) == 7:
 				kv := &hydrapb.KeyValuePair{Key: f[1]}
 				v, e1 := strconv.ParseInt(f[3], 10, 64)
